@@ -1,0 +1,45 @@
+//go:build verif
+
+package wire
+
+import (
+	"runtime/debug"
+	"sync/atomic"
+)
+
+// VerifHooks are verification-only instrumentation callbacks. They only exist
+// when the package is built with the `verif` build tag.
+type VerifHooks struct {
+	// Panic is called with the recovered value and stack of a panic which
+	// escaped a connection goroutine.
+	Panic func(value any, stack []byte)
+	// Point is called whenever a goroutine passes a named schedule point.
+	Point func(name string)
+}
+
+var verifHooks atomic.Pointer[VerifHooks]
+
+// SetVerifHooks installs (or removes, when nil) the verification hooks.
+func SetVerifHooks(hooks *VerifHooks) {
+	verifHooks.Store(hooks)
+}
+
+func verifRecover() {
+	hooks := verifHooks.Load()
+	if hooks == nil || hooks.Panic == nil {
+		return
+	}
+
+	if r := recover(); r != nil {
+		hooks.Panic(r, debug.Stack())
+	}
+}
+
+func verifPoint(name string) {
+	hooks := verifHooks.Load()
+	if hooks == nil || hooks.Point == nil {
+		return
+	}
+
+	hooks.Point(name)
+}
